@@ -6,4 +6,5 @@ INVARIANT TileLaw
 INVARIANT GrowLaw
 INVARIANT AxisSpellings
 INVARIANT AllPositive
+INVARIANT SlicePartition
 CHECK_DEADLOCK FALSE
